@@ -10,19 +10,18 @@ from .common import REAL, cfg_of, has_kw, kw_value, nodes_calling, own_method, s
 from .streammodel import handle_status_table, module_const_set, status_map
 
 EXPLANATION = (
-    "R-REPORT-REMOVES: every argument of an on_test(...) call in _StreamToTestRecord comes from a removing "
-    "accessor of the in-progress table (pop(key) / popitem()), the final-status arm is guarded by "
-    "`test_status not in INTERIM_STATES` and stopTestRun is a drain loop over the table -- hence a record "
-    "cannot be reported twice and none is left behind. R-IGNORE-NO-ID: _ensure_key returns a falsy key when "
-    "test_id is None and status() returns before touching the table; the key is the pair (test_id, "
-    "route_code). R-RECORD-UPDATE: status before timestamp before file before tags; chunks appended in "
-    "arrival order to one list per file name; first/last timestamps kept. R-SUMMARY-COUNT: in "
-    "StreamSummary._gather_test the 'exists' return dominates the single testsRun increment, followed by "
-    "exactly one bucket handler chosen by the record's status; each handler appends to at most one list; "
-    "wasSuccessful reads the lists fail/incomplete records go to. R-STATUS-TABLES (shared with C09): the "
-    "dispatch is exhaustive. R-WRAPPERS-FORWARD: StreamToDict, StreamSummary and StreamToExtendedDecorator "
-    "hand startTestRun / status / stopTestRun to their hook exactly once with all arguments (typestate "
-    "counter). Concatenation order and timestamps as values are not decided beyond these structural facts."
+    'StreamToDict, StreamSummary and StreamToExtendedDecorator are constructed and fed histories of status events '
+    '(ttsa.rules.streamobjects; _StreamToTestRecord, _TestRecord and the test dicts / PlaceHolders they make are '
+    'interpreted by ttsa.objects; the on_test callback snapshots what it is handed, the decorated result logs). '
+    'R-REPORT-REMOVES: every test is reported exactly once -- when its final status arrives, or as incomplete at '
+    'stopTestRun -- and nothing is left in the in-progress table; several tests in progress at the end are all reported. '
+    'R-IGNORE-NO-ID: events without a test id change nothing; (test id, route code) is the key, so the same id under two '
+    'route codes is two tests. R-RECORD-UPDATE: a record keeps the last status, the latest tags, the first and last '
+    "timestamps and each attachment's chunks concatenated in arrival order. R-SUMMARY-COUNT: testsRun counts each reported "
+    "test whose status is not 'exists' once, each lands in exactly the list its status names, failed and incomplete tests "
+    'make wasSuccessful() false. R-STATUS-TABLES: every status a stream can carry is handled. R-WRAPPERS-FORWARD: '
+    'StreamToExtendedDecorator replays each test once on the decorated result with times, tags and attachments, also when '
+    "the test id is given positionally and when an 'exists' announcement arrives for a test that is under way."
 )
 
 STR = "_StreamToTestRecord"
